@@ -12,7 +12,8 @@ DESIGN_REF = "3/C11"
 RULE = (
     "The C07 timeline generator with shape classes forced to occur: single datum; all data at one time; unsorted; spans of 1 ms, "
     "a few ms, seconds .. centuries; instants on the 29th-31st, leap days, year ends, years 1900-2200; options omitted (None), "
-    "empty, partial; every direction, algorithm and bound combination; ticks on/off; thorough adds timelines of up to 1000 labels "
+    "empty, partial; every direction, algorithm and bound combination, one timeline in five with odd bounds (zero-width, inverted, "
+    "ending at 0, narrower than a label, one-sided); ticks on/off; thorough adds timelines of up to 1000 labels "
     "in conflict clusters of <= 150 (known finding K2 - larger clusters exhaust the recursion limit - is excluded by "
     "construction). Oracle: constructing and exporting as SVG and as TikZ text returns a non-empty document and raises nothing "
     "(watchdog + line budget for hangs); with a degenerate domain all dots are at 0. Exceptions are bucketed by (type, innermost "
